@@ -33,6 +33,9 @@ type Fault struct {
 	Kind string `json:"kind"` // transport | errors | errors_with_data | short | long | nulldata | nonode | node_not_map | wrong_shape
 	Call int    `json:"call"` // which Query() call of that service (0-based), -1 = every call
 	Pos  int    `json:"pos"`  // position inside the batch
+	// Where picks, for the deep_* kinds, which of the answer's nested composite values is bent (index into the
+	// values of that shape in key order, modulo their number)
+	Where int `json:"where,omitempty"`
 }
 
 // Service is an evaluating fake downstream implementing queryer.Queryer.
@@ -139,6 +142,86 @@ func (s *Service) faultAt(call, pos int) string {
 	return ""
 }
 
+func (s *Service) whereAt(call, pos int) int {
+	for _, f := range s.Faults {
+		if (f.Call == call || f.Call == -1) && f.Pos == pos {
+			return f.Where
+		}
+	}
+	return 0
+}
+
+// bendDeep replaces one nested value of the answer by a value of another shape: deep_obj_to_empty_list,
+// deep_obj_to_list, deep_obj_to_scalar bend an object, deep_list_to_obj, deep_list_to_scalar a list. The value
+// directly under the top-level key `node` of a lookup is left alone (that is node_not_map).
+func bendDeep(data map[string]interface{}, kind string, where int, isLookup bool) bool {
+	type site struct {
+		parent map[string]interface{}
+		list   []interface{}
+		key    string
+		idx    int
+	}
+	wantObj := strings.HasPrefix(kind, "deep_obj_")
+	var sites []site
+	var walk func(v interface{}, top bool)
+	visit := func(child interface{}, st site, skip bool) {
+		_, isObj := child.(map[string]interface{})
+		_, isList := child.([]interface{})
+		if !skip && ((wantObj && isObj) || (!wantObj && isList)) {
+			sites = append(sites, st)
+		}
+	}
+	walk = func(v interface{}, top bool) {
+		switch x := v.(type) {
+		case map[string]interface{}:
+			keys := make([]string, 0, len(x))
+			for k := range x {
+				keys = append(keys, k)
+			}
+			sort.Strings(keys)
+			for _, k := range keys {
+				visit(x[k], site{parent: x, key: k}, top && isLookup && k == "node")
+				walk(x[k], false)
+			}
+		case []interface{}:
+			for i := range x {
+				visit(x[i], site{list: x, idx: i}, false)
+				walk(x[i], false)
+			}
+		}
+	}
+	walk(data, true)
+	if len(sites) == 0 {
+		return false
+	}
+	st := sites[where%len(sites)]
+	var old, nv interface{}
+	if st.parent != nil {
+		old = st.parent[st.key]
+	} else {
+		old = st.list[st.idx]
+	}
+	switch kind {
+	case "deep_obj_to_empty_list":
+		nv = []interface{}{}
+	case "deep_obj_to_list":
+		nv = []interface{}{old}
+	case "deep_obj_to_scalar", "deep_list_to_scalar":
+		nv = "not-an-object"
+	case "deep_list_to_obj":
+		nv = map[string]interface{}{"unexpected": "object"}
+		if l, _ := old.([]interface{}); len(l) > 0 {
+			nv = l[0]
+		}
+	}
+	if st.parent != nil {
+		st.parent[st.key] = nv
+	} else {
+		st.list[st.idx] = nv
+	}
+	return true
+}
+
 func (s *Service) callFault(call int, kinds ...string) bool {
 	for _, f := range s.Faults {
 		if f.Call == call || f.Call == -1 {
@@ -201,6 +284,10 @@ func (s *Service) Query(inputs []*requests.Request) ([]map[string]interface{}, e
 		case "node_not_map":
 			if _, ok := data["node"]; ok && strings.Contains(in.Query, "node(id:") {
 				data["node"] = "oops"
+				s.FaultsApplied++
+			}
+		case "deep_obj_to_empty_list", "deep_obj_to_list", "deep_obj_to_scalar", "deep_list_to_obj", "deep_list_to_scalar":
+			if bendDeep(data, s.faultAt(call, i), s.whereAt(call, i), strings.Contains(in.Query, "node(id:")) {
 				s.FaultsApplied++
 			}
 		case "wrong_shape":
